@@ -29,10 +29,75 @@ def _enum_set(prog, f, varname):
     return None, None
 
 
+def _selection(prog, f):
+    """Which placeholders a generator hands out: follows f into the generator it loops over (nested def, method of self, method
+    of a typed receiver) and reads, on every path that yields the loop variable of a loop over `<x>.placeholders`, the membership
+    fact about `<v>.element.ph_type`.  Returns {"names", "polarity" (True: in / False: not in), "func", "source", "memo"} or None."""
+    from sa import paths as P_
+    from sa.desugar import desugar
+    from sa.inline import expand, resolve_callee
+    from sa.pysrc import FuncInfo, Unknown
+
+    def scan(node, owner, module, cls):
+        env = {}
+        for n in ast.walk(node):
+            if isinstance(n, ast.Assign) and len(n.targets) == 1 and isinstance(n.targets[0], ast.Name):
+                v = prog.const(n.value, module, env, cls)
+                if not isinstance(v, Unknown):
+                    env[n.targets[0].id] = v
+        al = P_.aliases(node)
+        for lp in [n for n in ast.walk(node) if isinstance(n, ast.For) and isinstance(n.target, ast.Name)]:
+            src = P_.norm(lp.iter, al)
+            if not src.endswith(".placeholders"):
+                continue
+            v = lp.target.id
+            for pth in P_.enum_paths(lp.body):
+                ys = [i for i, e in enumerate(pth.events) if e[0] == "stmt" and any(
+                    isinstance(x, ast.Yield) and dotted(x.value) == v for x in ast.walk(e[1]))]
+                if not ys:
+                    continue
+                for a in P_.facts(pth, ys[0], al):
+                    if a[0] == "in" and a[1] == v + ".element.ph_type":
+                        st = prog.const(ast.parse(a[2], mode="eval").body, module, env, cls)
+                        if isinstance(st, (tuple, list, frozenset)) and all(isinstance(x, EnumMember) for x in st):
+                            return {"names": {x.name for x in st}, "polarity": a[3], "source": src}
+        return None
+
+    todo, seen = [(f, f.node if hasattr(f, "node") else f, f)], set()
+    while todo:
+        g, gnode, owner = todo.pop(0)
+        if id(gnode) in seen or len(seen) > 6:
+            continue
+        seen.add(id(gnode))
+        node = expand(prog, g, local_only=True) if isinstance(g, FuncInfo) else desugar(gnode)
+        r = scan(node, owner, owner.module, owner.cls)
+        if r is not None:
+            r["func"] = g if isinstance(g, FuncInfo) else owner
+            r["memo"] = g if isinstance(g, FuncInfo) and g.kind == "lazyproperty" else None
+            return r
+        local_defs = {n.name: n for n in ast.walk(gnode) if isinstance(n, ast.FunctionDef) and n is not gnode}
+        for n in ast.walk(gnode):
+            # generators / properties the function draws its elements from
+            if isinstance(n, ast.Call):
+                rc = resolve_callee(prog, owner, n, local_defs)
+                if rc is not None:
+                    callee = rc[0]
+                    todo.append((callee, callee.node if isinstance(callee, FuncInfo) else callee, callee if isinstance(callee, FuncInfo) else owner))
+            if isinstance(n, ast.Attribute) and dotted(n.value) == "self" and owner.cls is not None:
+                h = prog.lookup(owner.cls, n.attr)
+                if h is not None and h is not g and h.kind in ("property", "lazyproperty"):
+                    todo.append((h, h.node, h))
+    return None
+
+
 def run(ctx):
     from checks.c10 import load
 
     prog, S, M = load(ctx.repo)
+    from sa import inline as _inl
+    from sa.types import Types as _Types
+
+    _inl.use_types(_Types(prog, M))   # `notes_master.iter_cloneable_placeholders()` resolves through the receiver's type
     ctx.level = "other"
     ctx.trusted = ["CPython ast", "constant folding of the placeholder-type tuples"]
     ctx.explanation = (
@@ -46,25 +111,16 @@ def run(ctx):
     ctx.rule("R13.1", "latent / cloneable placeholder type sets equal the sets named in the statement")
     f0 = prog.func("pptx.slide", "SlideLayout.iter_cloneable_placeholders")
     # the selection may live in a helper property of the class the iterator delegates to (one level)
-    f = f0
-    memo = None
-    s, node = _enum_set(prog, f, "latent_ph_types")
-    if s is None:
-        for n in ast.walk(f0.node):
-            if isinstance(n, ast.Attribute) and dotted(n.value) == "self" and f0.cls is not None:
-                h = prog.lookup(f0.cls, n.attr)
-                if h is not None and h is not f0 and _enum_set(prog, h, "latent_ph_types")[0] is not None:
-                    f = h
-                    s, node = _enum_set(prog, h, "latent_ph_types")
-                    if h.kind == "lazyproperty":
-                        memo = h
-    polarity = any(isinstance(n, ast.Compare) and isinstance(n.ops[0], ast.NotIn) and dotted(n.comparators[0]) == "latent_ph_types"
-                   for n in ast.walk(f.node))
-    if s == {"DATE", "FOOTER", "SLIDE_NUMBER"} and polarity:
-        ctx.ok("R13.1", "latent_ph_types", sample={"set": sorted(s), "use": "ph_type not in latent_ph_types -> yield", "in": f.qualname})
+    sel = _selection(prog, f0)
+    f = sel["func"] if sel else f0
+    memo = sel["memo"] if sel else None
+    if sel is None:
+        ctx.error("SlideLayout.iter_cloneable_placeholders", "the selection of the cloneable placeholders by type is not recognised")
+    elif sel["names"] == {"DATE", "FOOTER", "SLIDE_NUMBER"} and sel["polarity"] is False:
+        ctx.ok("R13.1", "latent_ph_types", sample={"set": sorted(sel["names"]), "use": "ph_type not in <latent types> -> yield", "in": f.qualname})
     else:
         ctx.violation("R13.1", "latent_ph_types", "latent placeholder set is %s (expected DATE, FOOTER, SLIDE_NUMBER; excluded with "
-                      "`not in`)" % (sorted(s) if s else s), file=f.file, line=f.line)
+                      "`not in`), used with `%s`" % (sorted(sel["names"]), "in" if sel["polarity"] else "not in"), file=f.file, line=f.line)
     if memo is not None:
         ctx.violation("R13.1", "SlideLayout.iter_cloneable_placeholders:memo", "the cloneable placeholders are computed once (%s is a "
                       "lazyproperty): the set and order cloned to later slides is frozen at the first add_slide and no longer follows "
@@ -72,34 +128,35 @@ def run(ctx):
     else:
         ctx.ok("R13.1", "SlideLayout.iter_cloneable_placeholders:memo", nontrivial=False)
     g = prog.func("pptx.slide", "NotesSlide.clone_master_placeholders")
-    s2, _ = _enum_set(prog, g, "cloneable")
-    pol2 = any(isinstance(n, ast.Compare) and isinstance(n.ops[0], ast.In) and dotted(n.comparators[0]) == "cloneable"
-               for n in ast.walk(g.node))
-    if s2 == {"SLIDE_IMAGE", "BODY", "SLIDE_NUMBER"} and pol2:
-        ctx.ok("R13.1", "notes cloneable", sample={"set": sorted(s2), "use": "ph_type in cloneable -> yield"})
+    sel2 = _selection(prog, g)
+    if sel2 is None:
+        ctx.error("NotesSlide.clone_master_placeholders", "the selection of the cloneable notes placeholders by type is not recognised")
+    elif sel2["names"] == {"SLIDE_IMAGE", "BODY", "SLIDE_NUMBER"} and sel2["polarity"] is True:
+        ctx.ok("R13.1", "notes cloneable", sample={"set": sorted(sel2["names"]), "use": "ph_type in <cloneable types> -> yield", "in": sel2["func"].qualname})
     else:
         ctx.violation("R13.1", "notes cloneable", "notes cloneable set is %s (expected SLIDE_IMAGE, BODY, SLIDE_NUMBER; selected with "
-                      "`in`)" % (sorted(s2) if s2 else s2), file=g.file, line=g.line)
-    # both iterate the source placeholders in order
-    for fn, src in ((f, "self.placeholders"), (g, "notes_master.placeholders")):
-        loops = [n for n in ast.walk(fn.node) if isinstance(n, (ast.For, ast.comprehension)) and dotted(n.iter) == src]
-        if loops:
+                      "`in`), used with `%s`" % (sorted(sel2["names"]), "in" if sel2["polarity"] else "not in"), file=g.file, line=g.line)
+    # both iterate the source placeholders in order (the source is the loop the selection was read from)
+    for fn, sl_, want_src in ((f, sel, ("self.placeholders",)), (g, sel2, ("notes_master.placeholders", "self.placeholders"))):
+        if sl_ is None:
+            continue
+        if sl_["source"] in want_src:
             ctx.ok("R13.1", fn.qualname + ":order", nontrivial=False)
         else:
-            ctx.violation("R13.1", fn.qualname + ":order", "does not iterate %s in document order" % src, file=fn.file, line=fn.line)
+            ctx.violation("R13.1", fn.qualname + ":order", "does not iterate %s in document order (iterates %s)" % (want_src[0], sl_["source"]),
+                          file=fn.file, line=fn.line)
 
     # -- R13.2 ---------------------------------------------------------------------------------------
     ctx.rule("R13.2", "type/orient/sz/idx of the source placeholder reach the same-named attributes of the new p:ph")
     cp = prog.func("pptx.shapes.shapetree", "_BaseShapes.clone_placeholder")
     # sp = placeholder.element ; a, b, c, d = (sp.ph_type, sp.ph_orient, sp.ph_sz, sp.ph_idx)
-    reads = {}
-    for n in walk_own(cp.node):
-        if isinstance(n, ast.Assign) and isinstance(n.targets[0], ast.Tuple) and isinstance(n.value, ast.Tuple):
-            for t, v in zip(n.targets[0].elts, n.value.elts):
-                if isinstance(t, ast.Name) and isinstance(v, ast.Attribute):
-                    reads[t.id] = v.attr
+    from sa import paths as P_
+    from sa.desugar import desugar as _desugar
+
+    cpx = _desugar(cp.node)
+    reads = {k: v.attr for k, v in P_.value_aliases(cpx).items() if isinstance(v, ast.Attribute)}   # local -> source attribute it was read from
     call = None
-    for n in walk_own(cp.node):
+    for n in walk_own(cpx):
         if isinstance(n, ast.Call) and isinstance(n.func, ast.Attribute) and n.func.attr == "add_placeholder":
             call = n
     gs = prog.cls("pptx.oxml.shapes.groupshape", "CT_GroupShape")
@@ -113,6 +170,13 @@ def run(ctx):
     for i, a in enumerate(call.args):
         if isinstance(a, ast.Name) and a.id in reads and i < len(ap_params):
             flow[reads[a.id]] = ap_params[i]
+        elif isinstance(a, ast.Attribute) and a.attr.startswith("ph_") and i < len(ap_params):
+            flow[a.attr] = ap_params[i]   # read in place: add_placeholder(..., sp.ph_type, ...)
+    for k_ in call.keywords:
+        v_ = k_.value
+        src_ = reads.get(v_.id) if isinstance(v_, ast.Name) else (v_.attr if isinstance(v_, ast.Attribute) else None)
+        if k_.arg and src_:
+            flow[src_] = k_.arg
     inner = None
     for n in walk_own(ap.node):
         if isinstance(n, ast.Call) and isinstance(n.func, ast.Attribute) and n.func.attr == "new_placeholder_sp":
@@ -230,11 +294,11 @@ def run(ctx):
     # -- R13.4 ---------------------------------------------------------------------------------------
     ctx.rule("R13.4", "placeholder names are unique within the part")
     nm = prog.func("pptx.shapes.shapetree", "_BaseShapes._next_ph_name")
-    from checks.c06 import _stale_returns, idiom_while_in, idiom_while_not_in
+    from checks.c06 import _stale_returns, idiom_first_gap, idiom_while_in, idiom_while_not_in
 
     xp = [prog.const(n.args[0], nm.module) for n in walk_own(nm.node) if isinstance(n, ast.Call)
           and isinstance(n.func, ast.Attribute) and n.func.attr == "xpath" and n.args]
-    idiom = idiom_while_not_in(nm.node) or idiom_while_in(nm.node)
+    idiom = idiom_while_not_in(nm.node) or idiom_while_in(nm.node) or idiom_first_gap(nm.node)   # while-loops and `for n in count(...)`
     if "//p:cNvPr/@name" in xp and idiom and not _stale_returns(nm):
         ctx.ok("R13.4", "_next_ph_name", sample={"population": "//p:cNvPr/@name", "idiom": idiom})
     elif "//p:cNvPr/@name" in xp and not idiom and any(
